@@ -27,11 +27,12 @@ CASE_IMPORTS = ("From Coq Require Import String.\nFrom GV Require Import Prelude
 ALLOWED_AXIOMS: list = []
 REFUTED = ["C14_roundtrip_all_strings_refuted (strings shaped like other value kinds)", "C14_roundtrip_all_ints_refuted (32-digit integers)",
            "C14_no_nonfinite_nested_refuted (a non-finite float inside a list inside a list)"]
-PARTIAL = ["C14_value_roundtrip (side condition atom_safe: no colliding string, no 32-digit integer, no NaN; identifiers under the decidable "
-           "check uuid_text_ok) - stated per value as dict_mapper reaches it, not as one theorem about a whole nested file",
-           "C14_no_nonfinite_scalar / C14_no_nonfinite_to_json (scalars and lists of scalars)",
-           "the InputFile flow (flatten, promote, update_ui_values, set_enabled, enabled states) has a hand model tied by "
-           "correspondence (round_trip) but no theorem"]
+PARTIAL = ["C14_file_roundtrip / C14_file_roundtrip_promoted (whole dictionaries of any depth; side conditions: every leaf atom_safe - no "
+           "colliding string, no 32-digit integer, no NaN, identifiers under the decidable check uuid_text_ok -, lists hold scalars, every "
+           "nested form passes ui_validation as written; promotion is the hand model promote)",
+           "C14_value_roundtrip (the same per value)", "C14_no_nonfinite_scalar / C14_no_nonfinite_to_json (scalars and lists of scalars)",
+           "C14_flatten_spec / C14_flatten_form_entry / C14_enabled_preserved are about the GENERATED flatten and the read-back dictionary; "
+           "update_ui_values / set_enabled (aliasing) have a hand model tied by correspondence (round_trip) but no theorem"]
 TRUSTED = [
     "Coq 8.16.1 kernel + vm_compute (correspondence evaluation); no axioms",
     "coq/theories/Model/PyVal.v (Python value universe, uuid text / parser, pathlib suffix, np.isfinite) - exercised per primitive by 'fn' cases",
@@ -56,14 +57,14 @@ RULE = ("file: title/geoh5/... base parameters + 2-6 forms drawn from all 12 tem
         "('' inf -inf uuid-shaped *.geoh5), optional/enabled/group/dependency switches; fn: nested values of depth <= 3; "
         "non-trivial = a file case that reaches the read-back stage with at least one entity, non-finite float, disabled form or "
         "look-alike string, or an fn case on a container")
-LEVEL_TEXT = ("Proved about the PyLite translations of the current source (dict_mapper and the eleven mappers), for every value as "
-              "dict_mapper reaches it at any dictionary depth: demotion + write mappers + json + read mappers return every "
-              "non-colliding scalar unchanged (entities as their identifier, which promotion maps back; workspace paths re-opened); the "
-              "strings / integers that do not survive are EXACTLY '' / inf / -inf / uuid-shaped / *.geoh5 / 32-digit integers (iff "
-              "theorems; refutation witnesses replayed on the implementation: open findings); no non-finite float is written for "
-              "scalars and lists of scalars (refuted for nested lists). Partial: no single theorem about a whole nested file, and the "
-              "InputFile flow (update_ui_values, set_enabled, flatten, promote, enabled states) is a hand model tied by write->read on "
-              "disk only.")
+LEVEL_TEXT = ("Proved about the PyLite translations of the current source: by induction through the generated dict_mapper, demote -> "
+              "stringify -> json -> numify returns every ui.json-shaped dictionary (nested forms, any depth, any number of parameters; "
+              "leaves safe scalars, lists / tuples of them) leaf-canonical (entities as identifiers, tuples as lists), and promotion "
+              "(hand model) gives back exactly the dictionary written; the generated flatten reports None exactly for disabled forms and "
+              "the read-back dictionary has the same enabled states; the strings / integers that do not survive are EXACTLY '' / inf / "
+              "-inf / uuid-shaped / *.geoh5 / 32-digit integers (iff theorems, witnesses replayed: open findings); no non-finite float "
+              "is written for scalars and lists of scalars (refuted for nested lists). Partial: update_ui_values / set_enabled (they "
+              "write through aliases) are a hand model tied by write->read on disk only; identifiers rely on a decidable text check.")
 TECHNIQUE = "Coq proof over PyLite-translated source + hand model of the InputFile flow, tied by differential execution in vm_compute"
 FUEL = 12
 
